@@ -10,13 +10,32 @@ Proof.
   destruct (kdue s t); try discriminate. destruct (holds s t); simpl in H; try discriminate. exact H.
 Qed.
 
+(* the wake-up invariant without the thread_needed witness (what holds while no foreign submission is being served) *)
+Definition W4o (s : state) : Prop := forall p, pl s = PLive p -> pitems p <> [] ->
+  In FCreate (todo s) \/ exists w, In w (wids s) /\ wit4 s p w.
+
+Lemma W4o_W4 : forall s, W4o s -> W4 s.
+Proof. unfold W4o, W4. intros s H p P NE. destruct (H p P NE) as [X | X]; auto. Qed.
+
+Lemma W4_split : forall s, W4 s -> W4o s \/ exists p, pl s = PLive p /\ pitems p <> [] /\ needed_wit s p.
+Proof.
+  unfold W4, W4o. intros s H. destruct (pl s) as [|p|] eqn:P; try (left; intros q Q; discriminate Q).
+  destruct (pitems p) as [|a r] eqn:IT.
+  - left. intros q Q NE. inversion Q; subst q. congruence.
+  - assert (NE : pitems p <> []) by (rewrite IT; discriminate).
+    destruct (H p eq_refl NE) as [X | [X | X]].
+    + left. intros q Q _. inversion Q; subst q. auto.
+    + left. intros q Q _. inversion Q; subst q. auto.
+    + right. exists p. auto.
+Qed.
+
 Lemma W4_nolock : forall s l s', (forall t, l <> LLock t) ->
-  TB s -> (lock s = None -> todo s = []) -> APN s -> WU s -> W1 s -> W1b s -> Widle s -> W2 s -> W4 s ->
-  step s l = Some s' -> W4 s'.
+  TB s -> (lock s = None -> todo s = []) -> APN s -> WU s -> W1 s -> W1b s -> Widle s -> W2 s -> W4o s ->
+  step s l = Some s' -> W4o s'.
 Proof.
   intros s l s' NL T AT PN U A1 A1b WI A2 I H.
   step_inv H; try (exfalso; eapply NL; reflexivity); hold_facts; destruct T as (_ & _ & _ & T4 & T5 & ND);
-    unfold W4, wit4, kick_due in *; ssimp; ifs; ssimp; try assumption.
+    unfold W4o, wit4, kick_due in *; ssimp; ifs; ssimp; try assumption.
   all: try pool_inv.
   all: try (intros q Q NE; pose proof (I q Q NE) as IQ).
   all: try (intros NE).
@@ -49,9 +68,9 @@ Qed.
 
 (* critical sections that leave the queue, the idle list and the workers alone *)
 Lemma W4_frame : forall s s' p p', pl s = PLive p -> pl s' = PLive p' -> todo s = [] ->
-  (forall w, wk s' w = wk s w) -> wids s' = wids s -> pitems p' = pitems p -> pidle p' = pidle p -> W4 s -> W4 s'.
+  (forall w, wk s' w = wk s w) -> wids s' = wids s -> pitems p' = pitems p -> pidle p' = pidle p -> W4o s -> W4o s'.
 Proof.
-  unfold W4, wit4, kick_due, wpc_of. intros s s' p p' P P' TD WK WI IT ID I q Q NE.
+  unfold W4o, wit4, kick_due, wpc_of. intros s s' p p' P P' TD WK WI IT ID I q Q NE.
   rewrite P' in Q. inversion Q; subst q. rewrite IT in NE. destruct (I p P NE) as [FC | (w & INW & W)].
   - rewrite TD in FC. destruct FC.
   - right. exists w. rewrite WK, WI, ID. split; auto. destruct W as [AC | (PL & [KP | PT] & IK)]; auto.
@@ -60,9 +79,9 @@ Qed.
 
 Lemma W4_keep_other : forall s s' p p' t, pl s = PLive p -> pl s' = PLive p' -> todo s = [] ->
   wids s' = wids s -> (forall w, w <> t -> wk s' w = wk s w) -> pitems p' = pitems p ->
-  (forall w, w <> t -> In w (pidle p') -> In w (pidle p)) -> ~ wit4 s p t -> W4 s -> W4 s'.
+  (forall w, w <> t -> In w (pidle p') -> In w (pidle p)) -> ~ wit4 s p t -> W4o s -> W4o s'.
 Proof.
-  unfold W4. intros s s' p p' t P P' TD WI WK IT ID NW I q Q NE.
+  unfold W4o. intros s s' p p' t P P' TD WI WK IT ID NW I q Q NE.
   rewrite P' in Q. inversion Q; subst q. rewrite IT in NE. destruct (I p P NE) as [FC | (w & INW & W)].
   - rewrite TD in FC. destruct FC.
   - right. exists w. rewrite WI. split; auto.
@@ -73,13 +92,13 @@ Proof.
     + rewrite TD in PT. destruct PT.
 Qed.
 
-Lemma W4_witness : forall s' p' w, pl s' = PLive p' -> In w (wids s') -> wit4 s' p' w -> W4 s'.
+Lemma W4_witness : forall s' p' w, pl s' = PLive p' -> In w (wids s') -> wit4 s' p' w -> W4o s'.
 Proof.
-  unfold W4. intros. rewrite H in H2. inversion H2; subst. right. eauto.
+  unfold W4o. intros. rewrite H in H2. inversion H2; subst. right. eauto.
 Qed.
 
-Lemma W4_noitems : forall s' p', pl s' = PLive p' -> pitems p' = [] -> W4 s'.
-Proof. unfold W4. intros. rewrite H in H1. inversion H1; subst. contradiction. Qed.
+Lemma W4_noitems : forall s' p', pl s' = PLive p' -> pitems p' = [] -> W4o s'.
+Proof. unfold W4o. intros. rewrite H in H1. inversion H1; subst. contradiction. Qed.
 
 Lemma items_empty : forall s p, W1 s -> pl s = PLive p -> phead p = ptail p -> pitems p = [].
 Proof.
@@ -88,90 +107,92 @@ Proof.
   destruct (pitems p); auto. simpl in H. lia.
 Qed.
 
-Lemma W4_lock : forall s t s', TB s -> (lock s = None -> todo s = []) -> AAct s -> W1 s -> W1b s -> Widle s -> W2 s -> W4 s ->
+Lemma W4_lock : forall s t s', TB s -> (lock s = None -> todo s = []) -> AAct s -> W1 s -> W1b s -> Widle s -> W2 s -> W4o s ->
   st_lock s t = Some s' -> W4 s'.
 Proof.
   intros s t s' (_ & _ & _ & T4 & T5 & ND) AT AA A1 A1b WI A2 I H.
   unfold st_lock in H. destruct (pl s) as [|p|] eqn:P; try discriminate. destruct (lock s) eqn:L; try discriminate.
   pose proof (AT eq_refl) as TD.
   assert (FR : forall s1 p1, pl s1 = PLive p1 -> (forall w, wk s1 w = wk s w) -> wids s1 = wids s ->
-                pitems p1 = pitems p -> pidle p1 = pidle p -> W4 s1).
+                pitems p1 = pitems p -> pidle p1 = pidle p -> W4o s1).
   { intros. eapply (W4_frame s s1 p p1); eauto. }
   destruct (act s t) as [|i g|g] eqn:A.
   - destruct (Nat.eqb t (own s)) eqn:O.
     + (* handlers of the owner *)
       destruct (ohst s) as [|e|l|l|] eqn:HS; try discriminate.
       * destruct e; try discriminate.
-        -- inversion H; subst. eapply FR; reflexivity.
+        -- inversion H; subst. apply W4o_W4; eapply FR; reflexivity.
         -- destruct (cs_needed p) as (p' & e) eqn:C. inversion H; subst.
-           apply cs_needed_spec in C. destruct C as [(C1 & C2 & -> & ->) | (_ & -> & ->)]; eapply FR; reflexivity.
+           apply cs_needed_spec in C. destruct C as [(C1 & C2 & -> & ->) | (_ & -> & ->)]; apply W4o_W4; eapply FR; reflexivity.
       * destruct l; try discriminate. destruct (pshut p); try discriminate.
-        destruct (cs_free_test p); inversion H; subst; eapply FR; reflexivity.
+        destruct (cs_free_test p); inversion H; subst; apply W4o_W4; eapply FR; reflexivity.
     + (* a worker *)
       assert (INT : wpcf (wk s t) <> WNone -> In t (wids s)) by (intros NN; now apply T5).
       destruct (wpcf (wk s t)) as [| | | | |i last|i last|i last|] eqn:PC; try discriminate.
       * (* idle timeout *)
         destruct (cs_idle p t (wk s t)) as [[[p' pc] e]|] eqn:C; try discriminate. inversion H; subst. clear H.
         apply cs_idle_spec in C. inversion C; subst.
-        -- eapply FR; try reflexivity. intros w. unfold enter; ssimp.
+        -- apply W4o_W4; eapply FR; try reflexivity. intros w. unfold enter; ssimp.
            destruct (upd_cases _ (wk s) t {| wpcf := WLoop; wkicked := wkicked (wk s t); wkpend := wkpend (wk s t) |} w) as [(-> & ->) | (_ & ->)]; auto.
            rewrite <- PC. now destruct (wk s t).
-        -- eapply (W4_keep_other s _ p _ t P); [reflexivity | exact TD | reflexivity | | reflexivity | | | exact I].
+        -- apply W4o_W4; eapply (W4_keep_other s _ p _ t P); [reflexivity | exact TD | reflexivity | | reflexivity | | | exact I].
            ++ intros w NE. unfold enter; ssimp. now apply upd_other.
            ++ cbn. intros w NE X. apply rem_In in X. tauto.
            ++ unfold wit4, wpc_of. rewrite PC. cbn. intros [X | (_ & _ & [X | X])]; try discriminate; try contradiction; congruence.
       * (* got_event *)
         destruct (cs_got p t (wk s t)) as [[[p' pc] e]|] eqn:C; try discriminate. inversion H; subst. clear H.
         apply cs_got_spec in C. inversion C; subst.
-        -- eapply (W4_witness _ _ t); try reflexivity; auto. { apply INT. discriminate. }
+        -- apply W4o_W4; eapply (W4_witness _ _ t); try reflexivity; auto. { apply INT. discriminate. }
            left. unfold enter, wpc_of; ssimp. now rewrite upd_same.
-        -- eapply W4_noitems; try reflexivity. cbn. eapply items_empty; eauto.
-        -- eapply W4_noitems; try reflexivity. cbn. eapply items_empty; eauto.
-        -- eapply (W4_witness _ _ t); try reflexivity; auto. { apply INT. discriminate. }
+        -- apply W4o_W4; eapply W4_noitems; try reflexivity. cbn. eapply items_empty; eauto.
+        -- apply W4o_W4; eapply W4_noitems; try reflexivity. cbn. eapply items_empty; eauto.
+        -- apply W4o_W4; eapply (W4_witness _ _ t); try reflexivity; auto. { apply INT. discriminate. }
            right. unfold enter, kick_due, wpc_of; ssimp. rewrite upd_same. cbn. repeat split; auto.
            left. rewrite rem_In. tauto.
       * (* after the work function *)
         destruct (cs_after p t (wk s t) i last) as [[[p' pc] e]|] eqn:C; try discriminate. inversion H; subst. clear H.
         apply cs_after_spec in C. destruct C as (e1 & C & ->). inversion C; subst.
-        -- eapply (W4_witness _ _ t); try reflexivity; auto. { apply INT. discriminate. }
+        -- apply W4o_W4; eapply (W4_witness _ _ t); try reflexivity; auto. { apply INT. discriminate. }
            left. unfold enter, wpc_of; ssimp. now rewrite upd_same.
-        -- eapply W4_noitems; try reflexivity. cbn. eapply items_empty; eauto.
-        -- eapply W4_noitems; try reflexivity. cbn. eapply items_empty; eauto.
-        -- eapply (W4_witness _ _ t); try reflexivity; auto. { apply INT. discriminate. }
+        -- apply W4o_W4; eapply W4_noitems; try reflexivity. cbn. eapply items_empty; eauto.
+        -- apply W4o_W4; eapply W4_noitems; try reflexivity. cbn. eapply items_empty; eauto.
+        -- apply W4o_W4; eapply (W4_witness _ _ t); try reflexivity; auto. { apply INT. discriminate. }
            right. unfold enter, kick_due, wpc_of; ssimp. rewrite upd_same. cbn. repeat split; auto.
            ++ right. apply in_or_app. right. now left.
            ++ left. intros X. destruct (WI p P t X) as (_ & [Y | Y]); unfold wpc_of in Y; congruence.
   - (* iv_work_submit_pool *)
     destruct g; try discriminate.
-    destruct (cs_submit p (Nat.eqb t (own s)) i) as [[[p' kw] e]|] eqn:C; try discriminate. inversion H; subst; clear H.
+    destruct (cs_submit_g s p t i) as [[[p' kw] e]|] eqn:C; try discriminate. inversion H; subst; clear H.
+    apply cs_submit_g_spec in C. destruct C as (FG & C).
     apply cs_submit_spec in C. destruct C as (B & C). inversion C; subst.
     + destruct (WI p P w) as (INW & PCW). { rewrite H. now left. }
-      eapply (W4_witness _ _ w); try reflexivity; auto.
+      apply W4o_W4; eapply (W4_witness _ _ w); try reflexivity; auto.
       unfold wit4, kick_due, wpc_of, enter in *; ssimp. rewrite upd_same. cbn.
       destruct PCW as [PCW | PCW]; rewrite PCW; cbn; auto.
       right. repeat split; auto.
     + unfold W4, enter; ssimp. intros q Q _. left. now left.
-    + apply Nat.eqb_neq in H1. destruct (AA t) as [X | (i1 & l1 & X)]; [rewrite A; discriminate | contradiction |].
-      eapply (W4_witness _ _ t); try reflexivity; auto. { apply T5. rewrite X. discriminate. }
-      left. unfold enter, wpc_of in *; ssimp. now rewrite X.
+    + apply Nat.eqb_neq in H1. destruct (AA t) as [X | [(i1 & l1 & X) | (X & Y)]]; [rewrite A; discriminate | contradiction | |].
+      * apply W4o_W4; eapply (W4_witness _ _ t); try reflexivity; auto. { apply T5. rewrite X. discriminate. }
+        left. unfold enter, wpc_of in *; ssimp. now rewrite X.
+      * (* a foreign submitter and no thread to kick: the thread_needed event is the witness *)
+        assert (WN : wpc_of s t = WNone).
+        { destruct (wpc_of s t) eqn:PC; auto; exfalso;
+            assert (INW : In t (wids s)) by (apply T5; rewrite PC; discriminate); apply T4 in INW; destruct INW as (_ & KW); congruence. }
+        assert (SH : pshut p = false).
+        { apply FG. unfold foreign. rewrite WN. apply Nat.eqb_neq in H1. rewrite H1. reflexivity. }
+        unfold W4, needed_wit, evneeded_due, enter; ssimp. intros q Q _. inversion Q; subst q.
+        cbn [pidle pstarted pmax pshut p_set_items p_set_tail]. right. right. repeat split; auto. right. right. now left.
     + destruct A1b as (B1 & _). destruct (B1 p P) as (S1 & S2 & S3). rewrite TD in S1. cbn in S1.
       destruct (filter_witness (fun w => is_live (wpc_of s w)) (wids s)) as (w & INW & LW). { unfold nlive in S1. lia. }
       destruct (A2 p P w INW LW) as [X | X]. { rewrite H in X. destruct X. }
-      eapply (W4_witness _ _ w); try reflexivity; auto.
+      apply W4o_W4; eapply (W4_witness _ _ w); try reflexivity; auto.
       unfold wit, wit4, kick_due, wpc_of, enter in *; ssimp. cbn [pidle p_set_items p_set_tail]. rewrite H.
       destruct X as [X | (X1 & [X2 | X2])]; auto.
       * right. repeat split; auto.
       * rewrite TD in X2. destruct X2.
   - (* iv_work_pool_put *)
-    destruct g; try discriminate. destruct (Nat.eqb t (own s)); try discriminate.
-    destruct (pstarted p =? 0); inversion H; subst; eapply FR; reflexivity.
-Qed.
-
-Lemma W4_step : forall s l s', TB s -> (lock s = None -> todo s = []) -> AAct s -> APN s -> WU s -> W1 s -> W1b s -> Widle s ->
-  W2 s -> W4 s -> step s l = Some s' -> W4 s'.
-Proof.
-  intros. destruct l; try (eapply W4_nolock; eauto; intros; discriminate).
-  apply step_lock_inv in H9. eapply W4_lock; eauto.
+    destruct g; try discriminate. destruct (Nat.eqb t (own s) && (nilb (pitems p) || (0 <? pstarted p))); try discriminate.
+    destruct (pstarted p =? 0); inversion H; subst; apply W4o_W4; eapply FR; reflexivity.
 Qed.
 
 (* the unregister calls owed by the owner concern a joined thread, unless the pool is being freed *)
@@ -204,3 +225,148 @@ Qed.
 Lemma shutb_live : forall s p, pl s = PLive p -> shutb s = pshut p.
 Proof. unfold shutb. intros. now rewrite H. Qed.
 
+
+(* ---------- queued work whose only witness is the owner's thread_needed event (foreign submitters) ---------- *)
+Lemma dispatch_pl : forall s s', dispatch_o s = Some s' -> pl s' = pl s /\ todo s' = todo s.
+Proof. unfold dispatch_o. intros s s' H. destruct (orelock s), (obatch s), (opend s); inversion H; subst; cbn; auto. Qed.
+
+Lemma due_dispatch : forall s s', otopb s = true -> evneeded_due s -> dispatch_o s = Some s' -> evneeded_due s'.
+Proof.
+  unfold evneeded_due. intros s s' T D H.
+  assert (NP : ohst s <> HPop EvNeeded) by (intros X; unfold otopb in T; rewrite X in T; discriminate).
+  destruct (dispatch_pl _ _ H) as (_ & TD).
+  rewrite TD. destruct D as [X | [X | X]]; auto; try contradiction.
+  unfold dispatch_o in H. destruct (orelock s).
+  - destruct (obatch s) as [|e r] eqn:OB; inversion H; subst; cbn.
+    + left. now rewrite OB.
+    + apply in_app_iff in X. destruct X as [X | [X | X]].
+      * left. apply in_app_iff. now left.
+      * subst. right. now left.
+      * left. apply in_app_iff. now right.
+  - destruct (obatch s) as [|e0 r0] eqn:OB; try discriminate.
+    destruct (opend s) as [|e r] eqn:OP; inversion H; subst; cbn.
+    + left. now rewrite OP, OB.
+    + rewrite app_nil_r in X. destruct X as [X | X].
+      * subst. right. now left.
+      * now left.
+Qed.
+
+Lemma otopb_nopop0 : forall s e, otopb s = true -> ohst s <> HPop e.
+Proof. unfold otopb. intros s e T X. rewrite X in T. discriminate. Qed.
+
+Lemma ND_nolock : forall s l s' p p', (forall t, l <> LLock t) -> HFX s ->
+  pl s = PLive p -> pl s' = PLive p' -> needed_wit s p -> step s l = Some s' -> needed_wit s' p'.
+Proof.
+  intros s l s' p p' NL HF P P' (D & N2 & N3 & N4) H.
+  assert (PP : p' = p /\ evneeded_due s'); [| destruct PP as (-> & D'); unfold needed_wit; auto].
+  step_inv0 H; try (exfalso; eapply NL; reflexivity); hold_facts.
+  all: try match goal with HD : dispatch_o _ = Some _ |- _ =>
+         bools; destruct (dispatch_pl _ _ HD) as (X1 & _); split; [congruence | eapply due_dispatch; eauto] end.
+  all: unfold evneeded_due in *; ssimp; ifs; ssimp.
+  all: try congruence.
+  all: split; [congruence |].
+  all: repeat match goal with
+       | H : omemb _ _ = true |- _ => apply omemb_In in H
+       | H : omemb _ _ = false |- _ => clear H
+       end.
+  all: bools.
+  all: try match goal with T : otopb _ = true |- _ => pose proof (fun e => otopb_nopop0 _ e T) as NP end.
+  all: repeat match goal with E : todo _ = _ |- _ => rewrite E in * | E : ohst _ = _ |- _ => rewrite E in * end.
+  all: rewrite ?in_app_iff in *; cbn [In] in *.
+  all: try tauto.
+  all: try (intuition (try discriminate; try congruence); fail).
+  destruct (HF _ E7) as [F | [(F1 & F2) | F]]; [| congruence | congruence].
+  destruct (F o (or_introl eq_refl)) as (m & ->). rewrite !orem_In.
+  destruct D as [[X | X] | [X | X]]; try discriminate; auto.
+  - left. left. split; auto. discriminate.
+  - left. right. split; auto. discriminate.
+Qed.
+
+Lemma W4_of_needed : forall s, (forall p, pl s = PLive p -> needed_wit s p) -> W4 s.
+Proof. unfold W4. intros s H p P _. right. right. auto. Qed.
+
+Lemma ND_lock : forall s t s' p, TB s -> (lock s = None -> todo s = []) -> W1 s -> W1b s -> Widle s -> W2 s ->
+  pl s = PLive p -> pitems p <> [] -> needed_wit s p -> st_lock s t = Some s' -> W4 s'.
+Proof.
+  intros s t s' p (_ & _ & _ & T4 & T5 & ND) AT A1 A1b WI A2 P NE (D & N2 & N3 & N4) H.
+  unfold st_lock in H. rewrite P in H. destruct (lock s) eqn:L; try discriminate.
+  pose proof (AT eq_refl) as TD.
+  assert (DUE : In EvNeeded (opend s ++ obatch s) \/ ohst s = HPop EvNeeded).
+  { destruct D as [X | [X | X]]; auto. rewrite TD in X. destruct X. }
+  destruct (act s t) as [|i g|g] eqn:A.
+  - destruct (Nat.eqb t (own s)) eqn:O.
+    + (* handlers of the owner *)
+      destruct (ohst s) as [|e|l|l|] eqn:HS; try discriminate.
+      * destruct e; try discriminate.
+        -- (* iv_work_event steals work_done: thread_needed is still pending *)
+           inversion H; subst. apply W4_of_needed. unfold needed_wit, evneeded_due, enter; ssimp. intros q Q. inversion Q; subst q.
+           cbn [pidle pstarted pmax pshut p_set_done]. repeat split; auto. left. destruct DUE as [X | X]; [exact X | discriminate X].
+        -- (* iv_work_thread_needed starts the thread *)
+           destruct (cs_needed p) as (p' & e) eqn:C. inversion H; subst.
+           apply cs_needed_spec in C. destruct C as [(C1 & C2 & -> & ->) | ([C1 | C1] & _ & _)]; [| contradiction | lia].
+           unfold W4, enter; ssimp. intros q Q _. left. now left.
+      * destruct l; try discriminate. rewrite N4 in H. discriminate.
+    + (* a worker *)
+      assert (INT : wpcf (wk s t) <> WNone -> In t (wids s)) by (intros NN; now apply T5).
+      destruct (wpcf (wk s t)) as [| | | | |i last|i last|i last|] eqn:PC; try discriminate.
+      * (* idle timeout: nobody is idle *)
+        destruct (cs_idle p t (wk s t)) as [[[p' pc] e]|] eqn:C; try discriminate.
+        apply cs_idle_spec in C. inversion C; subst; rewrite N2 in *; contradiction.
+      * (* got_event *)
+        destruct (cs_got p t (wk s t)) as [[[p' pc] e]|] eqn:C; try discriminate. inversion H; subst. clear H.
+        apply cs_got_spec in C. inversion C; subst.
+        -- apply W4o_W4; eapply (W4_witness _ _ t); try reflexivity; auto. { apply INT. discriminate. }
+           left. unfold enter, wpc_of; ssimp. now rewrite upd_same.
+        -- apply W4o_W4; eapply W4_noitems; try reflexivity. cbn. eapply items_empty; eauto.
+        -- apply W4o_W4; eapply W4_noitems; try reflexivity. cbn. eapply items_empty; eauto.
+        -- apply W4o_W4; eapply (W4_witness _ _ t); try reflexivity; auto. { apply INT. discriminate. }
+           right. unfold enter, kick_due, wpc_of; ssimp. rewrite upd_same. cbn. repeat split; auto.
+           left. rewrite rem_In. tauto.
+      * (* after the work function *)
+        destruct (cs_after p t (wk s t) i last) as [[[p' pc] e]|] eqn:C; try discriminate. inversion H; subst. clear H.
+        apply cs_after_spec in C. destruct C as (e1 & C & ->). inversion C; subst.
+        -- apply W4o_W4; eapply (W4_witness _ _ t); try reflexivity; auto. { apply INT. discriminate. }
+           left. unfold enter, wpc_of; ssimp. now rewrite upd_same.
+        -- apply W4o_W4; eapply W4_noitems; try reflexivity. cbn. eapply items_empty; eauto.
+        -- apply W4o_W4; eapply W4_noitems; try reflexivity. cbn. eapply items_empty; eauto.
+        -- apply W4o_W4; eapply (W4_witness _ _ t); try reflexivity; auto. { apply INT. discriminate. }
+           right. unfold enter, kick_due, wpc_of; ssimp. rewrite upd_same. cbn. repeat split; auto.
+           ++ right. apply in_or_app. right. now left.
+           ++ left. intros X. destruct (WI p P t X) as (_ & [Y | Y]); unfold wpc_of in Y; congruence.
+  - (* iv_work_submit_pool *)
+    destruct g; try discriminate.
+    destruct (cs_submit_g s p t i) as [[[p' kw] e]|] eqn:C; try discriminate. inversion H; subst; clear H.
+    apply cs_submit_g_spec in C. destruct C as (FG & C).
+    apply cs_submit_spec in C. destruct C as (B & C). inversion C; subst.
+    + congruence.
+    + unfold W4, enter; ssimp. intros q Q _. left. now left.
+    + apply W4_of_needed. unfold needed_wit, evneeded_due, enter; ssimp. intros q Q. inversion Q; subst q.
+      cbn [pidle pstarted pmax pshut p_set_items p_set_tail]. repeat split; auto. right. right. now left.
+    + lia.
+  - (* iv_work_pool_put: the contract asks for a pool thread *)
+    destruct g; try discriminate.
+    destruct (Nat.eqb t (own s) && (nilb (pitems p) || (0 <? pstarted p))) eqn:G; try discriminate.
+    apply andb_true_iff in G. destruct G as (_ & G). apply orb_true_iff in G. destruct G as [G | G].
+    { apply nilb_true in G. contradiction. }
+    apply Z.ltb_lt in G.
+    destruct (pstarted p =? 0) eqn:Z0; [apply Z.eqb_eq in Z0; lia |]. inversion H; subst; clear H.
+    destruct A1b as (B1 & _). destruct (B1 p P) as (S1 & S2 & S3). rewrite TD in S1. cbn in S1.
+    destruct (filter_witness (fun w => is_live (wpc_of s w)) (wids s)) as (w & INW & LW). { unfold nlive in S1. lia. }
+    destruct (A2 p P w INW LW) as [X | X]. { rewrite N2 in X. destruct X. }
+    apply W4o_W4; eapply (W4_witness _ _ w); try reflexivity; auto.
+    unfold wit, wit4, kick_due, wpc_of, enter in *; ssimp. cbn [pidle p_set_shut]. rewrite N2.
+    destruct X as [X | (X1 & [X2 | X2])]; auto.
+    * right. repeat split; auto.
+    * rewrite TD in X2. destruct X2.
+Qed.
+
+Lemma W4_step : forall s l s', TB s -> (lock s = None -> todo s = []) -> AAct s -> APN s -> WU s -> W1 s -> W1b s -> Widle s ->
+  W2 s -> HFX s -> W4 s -> step s l = Some s' -> W4 s'.
+Proof.
+  intros s l s' T AT AA PN U A1 A1b WI A2 HF I H.
+  destruct (W4_split s I) as [IO | (p & P & NE & NW)].
+  - destruct l; try (apply W4o_W4; eapply W4_nolock; eauto; intros; discriminate).
+    apply step_lock_inv in H. eapply W4_lock; eauto.
+  - destruct l; try (apply W4_of_needed; intros p' P'; eapply (ND_nolock s _ s' p p'); eauto; intros; discriminate).
+    apply step_lock_inv in H. eapply ND_lock; eauto.
+Qed.
